@@ -47,6 +47,7 @@ func checkC02(ctx *Ctx, r *Report) {
 	c02GoQualifiedIdentifiers(ctx, r)
 	c09UnfoldAccumulators(ctx, r)
 	c09TypedConstantSetup(ctx, r)
+	c02PythonValueFormatter(ctx, r)
 }
 
 // kindConsts: the constants of ast.Kind / ast.ScalarKind.
@@ -1632,3 +1633,34 @@ func isIdentChar(c byte) bool {
 }
 
 func isIdentTail(s string) bool { return s != "" && isIdentChar(s[len(s)-1]) }
+
+// c02PythonValueFormatter: python.formatValue renders the values of defaults. Its fall-through is Go's `%#v`, which is
+// only valid Python for numbers and strings: every composite shape a default can take (list, map) needs a case of its
+// own before it — a map printed with %#v is `map[string]interface {}{…}`, a SyntaxError in a module the run reports as
+// generated.
+func c02PythonValueFormatter(ctx *Ctx, r *Report) {
+	fn := ctx.LookupFunc("internal/jennies/python", "formatValue")
+	fd, _ := ctx.DeclOf(fn)
+	if fd == nil {
+		r.Undecided("anchor lost: python.formatValue")
+		return
+	}
+	cases := map[string]bool{}
+	ast.Inspect(fd.Body, func(m ast.Node) bool {
+		if ta, ok := m.(*ast.TypeAssertExpr); ok && ta.Type != nil {
+			cases[exprString(ta.Type)] = true
+		}
+		if cc, ok := m.(*ast.CaseClause); ok {
+			for _, e := range cc.List {
+				cases[exprString(e)] = true
+			}
+		}
+		return true
+	})
+	for _, want := range []struct{ typ, what string }{{"[]any", "lists"}, {"map[string]any", "maps (objects)"}, {"bool", "booleans"}} {
+		r.Count("shapes of default values the python formatter must handle", 1)
+		has := cases[want.typ] || cases[strings.ReplaceAll(want.typ, "any", "interface{}")]
+		r.Check(has, "kinds/python-value-formatter", "python.formatValue handles "+want.typ, fd.Pos(), "a case of its own before the %#v fall-through",
+			"python.formatValue has no case for "+want.what+" ("+want.typ+"): such a default is printed with Go's %#v — `map[string]interface {}{\"a\":\"b\"}` / `true` — which is not Python: the module does not compile while the run succeeds")
+	}
+}
